@@ -384,6 +384,9 @@ def extra_contracts():
     from .C09 import Init as _Init
     from .C19 import ScopeFactory as _SF
     reg = lambda n: "registered" in n or "detached" in n or n.startswith(("post:I4", "C09-P0"))      # noqa: E731
-    return [_variant(_Init, "C10", reg),
+    # "lands in the innermost scope active in the recording task": a spawned task starts from a snapshot of the context taken at
+    # the spawn point, its own copy - scopes entered by siblings never become its current scope (C03-P1)
+    from .C06 import Run as _Run, Spawn as _Spawn
+    return [_variant(_Run, "C10", ("C03-P1",)), _variant(_Spawn, "C10", ("C03-P1",)), _variant(_Init, "C10", reg),
             type("C10ScopeFactory", (_SF,), dict(name="C10/metrics:MetricsContext.scope", props=("C10",),
                                                  keep=staticmethod(lambda n: n.startswith("C09-P0") or n == "canary")))()]
